@@ -13,7 +13,7 @@ EXTENDS Naturals, Sequences, FiniteSets, SequencesExt, TLC, Json, IOUtils
 CONSTANTS MaxLen
 Fam(f) == IOEnv.FAMILY = f
 SeqsOver(S, n) == UNION {[1..k -> S] : k \in 0..n}
-Betas == {<<1, 2>>, <<1, 1>>, <<2, 1>>}
+Betas == {<<0, 1>>, <<1, 2>>, <<1, 1>>, <<2, 1>>}      \* beta = 0 (precision only) is the boundary of the range
 
 WS == SeqsOver({1, 3, 4}, MaxLen)
 Spelling == IF ~Fam("spelling") THEN {} ELSE
